@@ -480,7 +480,7 @@ pub fn c15(tier: Tier) -> PropSpec {
                with the binary built from the current tree. Oracle: exit 0; first line grounded, then the complete set (grounded \
                first), then blocks that form exactly one two-valued set and one stable set per requested variant (flags the help marks \
                'only hybrid' may print nothing outside hybrid mode); every line names every statement exactly once; --lx prints in \
-               byte-wise order. Malformed files: part 'malformed' (exit != 0, empty stdout, all modes). Known open findings are \
+               byte-wise order. Malformed files (grammar-invalid mutants, and grammar-valid files that use an undeclared statement): part 'malformed' (exit != 0, empty stdout, all modes). Known open findings are \
                matched by exact signature only (K1 reserved characters, K2 silently ignored flags). Non-trivial: >= 2 semantics \
                flags on an ADF with >= 2 complete models.",
         assumptions: vec![
@@ -513,15 +513,52 @@ fn malformed_case() -> BoxedStrategy<MutCase> {
         .boxed()
 }
 
+/// a grammar-valid text that is no well-formed ADF: one statement is used (as head of an ac fact or
+/// inside a formula) but never declared
+pub fn undeclare(c: &AdfCase, which: u16) -> Option<String> {
+    let (text, decl) = gen::render(&c.acs, &c.labels, &c.layout);
+    let victim = decl[gen::pick(which, decl.len())];
+    let fact = format!("s({}).", gen::quote(&c.labels[victim]));
+    let p = text.find(&fact)?;
+    let rest = format!("{}{}", &text[..p], &text[p + fact.len()..]);
+    let rest = rest.trim_start().to_string();
+    if rest.is_empty() || !refparse::accepts(&rest) {
+        return None;
+    }
+    Some(rest)
+}
+
 pub fn cli_reject_check(c: &MutCase, st: &mut Stats) -> CheckResult {
     let text = c.adf.text();
-    let Some((mutant, _)) = mutate(&text, &c.m) else {
-        return Ok(Outcome::Ok);
+    let mutant = if let Mutation::Garbage(g) = &c.m {
+        if g % 3 == 0 {
+            // every third 'garbage' case is the undeclared-statement class instead
+            match undeclare(&c.adf, *g as u16 * 257) {
+                Some(t) => {
+                    st.label("not-an-ADF:undeclared-statement");
+                    Some(t)
+                }
+                None => None,
+            }
+        } else {
+            None
+        }
+    } else {
+        None
     };
-    if refparse::accepts(&mutant) {
-        st.label("discarded:reference_accepts_mutant");
-        return Ok(Outcome::Ok);
-    }
+    let mutant = match mutant {
+        Some(m) => m,
+        None => {
+            let Some((mutant, _)) = mutate(&text, &c.m) else {
+                return Ok(Outcome::Ok);
+            };
+            if refparse::accepts(&mutant) {
+                st.label("discarded:reference_accepts_mutant");
+                return Ok(Outcome::Ok);
+            }
+            mutant
+        }
+    };
     let path = write_input(&mutant)?;
     let mut res = Ok(());
     for mode in MODES {
